@@ -102,7 +102,7 @@ pub struct RunOutcome {
     pub log_len: usize,
 }
 
-pub fn run_case(tasks: &[Vec<Step>], budgets: &[u64], c0: u64) -> RunOutcome {
+fn run_case_inner(tasks: &[Vec<Step>], budgets: &[u64], c0: u64) -> RunOutcome {
     // distinct event values first, then the same value for every event
     UNIFORM_EVENTS.with(|u| u.set(false));
     let a = run_case_mode(tasks, budgets, c0);
@@ -114,6 +114,29 @@ pub fn run_case(tasks: &[Vec<Step>], budgets: &[u64], c0: u64) -> RunOutcome {
     UNIFORM_EVENTS.with(|u| u.set(false));
     if let Some((k, w)) = b.violation.take() {
         b.violation = Some((format!("{k}/equal-event-values"), format!("[all events carry the same value] {w}")));
+    }
+    b
+}
+
+/// Another driver that ran to completion earlier on this thread (its thread-local "current cycle" is left at 777+).
+fn preamble_driver() {
+    let mut d = AsyncDriver::with_clock(770);
+    d.spawn(async {
+        sleep_cycles(7).await;
+    });
+    let _ = d.run_for(100);
+}
+
+pub fn run_case(tasks: &[Vec<Step>], budgets: &[u64], c0: u64) -> RunOutcome {
+    let a = run_case_inner(tasks, budgets, c0);
+    if a.violation.is_some() {
+        return a;
+    }
+    // the same case right after an unrelated driver used this thread: nothing of it may leak into a new driver
+    preamble_driver();
+    let mut b = run_case_mode(tasks, budgets, c0);
+    if let Some((k, w)) = b.violation.take() {
+        b.violation = Some((format!("{k}/after-another-driver-on-the-thread"), format!("[after an unrelated driver ran on this thread] {w}")));
     }
     b
 }
